@@ -366,3 +366,42 @@ func VerifHarness_C04_race() {
 	verifrt.Assert(withProof >= 1, "C04.race.relevant-tx-of-a-processed-block-gets-a-notification-with-a-proof")
 	verifrt.Reach("C04.race.done")
 }
+
+// VerifHarness_C04_late_subscription: a transaction reaches the node unconfirmed before the client
+// has subscribed to what it pays to (it is filtered out, only the double-spend index knows it);
+// the client subscribes; a block with the transaction is processed.  It is a relevant transaction
+// included in a processed block: it is delivered (as new - it was never delivered before) with a
+// proof that verifies.
+func VerifHarness_C04_late_subscription() {
+	ctx := context.Background()
+	k, err := vkNewNode(ctx, nil)
+	verifrt.Assert(err == nil, "C04.kit.node-loads")
+	node, rec := k.node, k.rec
+	if verifrt.Choose("in-sync", 2) == 1 {
+		node.state.SetInSync()
+	}
+	node.UnsubscribePushDatas(ctx, [][]byte{vkSubscribed()})
+	t := vkTx(45, []int{11}, true)
+	txid := *t.TxHash()
+	perr := node.processUnconfirmedTx(ctx, handlers.TxData{Msg: t, Trusted: true, ConfirmedHeight: -1})
+	verifrt.Assert(perr == nil && len(rec.events) == 0, "C04.late-subscription.filtered-out-at-first")
+	node.SubscribePushDatas(ctx, [][]byte{vkSubscribed()})
+	other := vkTx(46, []int{12}, false)
+	block := vkBlock(*node.blocks.LastHash(), 1, []*wire.MsgTx{other, t})
+	berr := node.ProcessBlock(ctx, block)
+	verifrt.Assert(berr == nil, "C04.block.processed")
+	var got []vkEvent
+	for _, e := range rec.events {
+		if e.txid == txid && (e.kind == "tx" || e.kind == "update") {
+			got = append(got, e)
+		}
+	}
+	verifrt.Sig("late-subscription", "delivered")
+	verifrt.Assert(len(got) == 1 && got[0].kind == "tx", "C04.late-subscription.relevant-tx-of-a-processed-block-is-delivered")
+	if len(got) == 1 {
+		verifrt.Sig("late-subscription", "proof")
+		p := got[0].state.MerkleProof
+		verifrt.Assert(p != nil && p.IsValid(txid) == nil && int(p.Index) == 2 && got[0].state.UnconfirmedDepth == 0, "C04.late-subscription.with-a-valid-proof")
+	}
+	verifrt.Reach("C04.late-subscription.done")
+}
